@@ -15,9 +15,16 @@ import (
 // the page chain from the file and renders it for the Lean layout model:
 // `first:last:off:payloadLen` per page.
 func LayoutCase(r *engine.RNG, P int, sizes []int) (line string, fails []Failure) {
+	line, _, fails = LayoutAckCase(r, P, sizes, false)
+	return line, fails
+}
+
+// LayoutAckCase is LayoutCase followed (optionally) by one or two ACKs; the second line is
+// `ackplan P sizes n => freed false headFirst` for the Lean ACK plan model.
+func LayoutAckCase(r *engine.RNG, P int, sizes []int, withAck bool) (line, ackLine string, fails []Failure) {
 	s := New(Config{PageSize: uint32(P), MaxPages: 0, WriteBuffer: uint(r.Intn(6 * P))})
 	if s.Open() != "ok" {
-		return "", []Failure{{Prop: "C05", Kind: "open", Msg: "open failed"}}
+		return "", "", []Failure{{Prop: "C05", Kind: "open", Msg: "open failed"}}
 	}
 	for _, sz := range sizes {
 		left := sz
@@ -27,7 +34,7 @@ func LayoutCase(r *engine.RNG, P int, sizes []int) (line string, fails []Failure
 				n = 1 + r.Intn(left)
 			}
 			if s.WriteChunk(n) != "ok" {
-				return "", append(s.Failures, Failure{Prop: "C05", Kind: "write", Msg: "write failed on an unbounded file"})
+				return "", "", append(s.Failures, Failure{Prop: "C05", Kind: "write", Msg: "write failed on an unbounded file"})
 			}
 			left -= n
 			if left > 0 && r.Chance(10) {
@@ -40,7 +47,7 @@ func LayoutCase(r *engine.RNG, P int, sizes []int) (line string, fails []Failure
 		}
 	}
 	if s.Flush() != "ok" {
-		return "", append(s.Failures, Failure{Prop: "C05", Kind: "flush", Msg: "final flush failed"})
+		return "", "", append(s.Failures, Failure{Prop: "C05", Kind: "flush", Msg: "final flush failed"})
 	}
 	// decode the chain
 	var pages []string
@@ -97,16 +104,34 @@ func LayoutCase(r *engine.RNG, P int, sizes []int) (line string, fails []Failure
 	if s.Consumed != len(sizes) {
 		s.fail("C05", "layout-readback", "reader delivered %d of %d events", s.Consumed, len(sizes))
 	}
-	s.Close()
 	ss := make([]string, len(sizes))
 	for i, x := range sizes {
 		ss[i] = fmt.Sprint(x)
 	}
+	if withAck && s.Consumed == len(sizes) && len(sizes) > 0 {
+		n := 1 + r.Intn(len(sizes))
+		before := s.cbPages
+		ok := true
+		if r.Chance(40) && n > 1 {
+			a := 1 + r.Intn(n-1)
+			ok = s.ACK(a) == "ok" && s.ACK(n-a) == "ok"
+		} else {
+			ok = s.ACK(n) == "ok"
+		}
+		if ok {
+			hd, _, _, _, okh := s.rootHeader()
+			if okh {
+				ackLine = fmt.Sprintf("ackplan %d %s %d => %d false %d", P, strings.Join(ss, ","), n, s.cbPages-before, hd[1])
+			}
+		}
+		s.Counters()
+	}
+	s.Close()
 	res := strings.Join(pages, " ")
 	if len(pages) == 0 {
 		res = "-"
 	}
-	return fmt.Sprintf("layoutsizes %d %s => %s", P, strings.Join(ss, ","), res), s.Failures
+	return fmt.Sprintf("layoutsizes %d %s => %s", P, strings.Join(ss, ","), res), ackLine, s.Failures
 }
 
 // drainAll reads all flushed events completely.
